@@ -49,11 +49,19 @@ def _cases(draw):
         plan["items"] = [it for it in plan["items"] if it[0] not in ("hold", "release")]
         idx = [i for i, it in enumerate(plan["items"]) if it[0] in ("step", "plan")]
         mode = draw(st.sampled_from(["none", "block", "block", "nested", "unreleased",
-                                     "fail_inside"]))
+                                     "fail_inside", "fail_running"]))
         if not idx or mode == "none":
             continue
         a = draw(st.sampled_from(idx))
         items = plan["items"]
+        if mode == "fail_running":
+            # the plan idles (its steps start running) and then fails: the steps it created are
+            # detached while they run and still hold their resources
+            for _ in range(draw(st.integers(1, 3))):
+                items.append(["pause"])
+            items.append(["fail_plan"])
+            spec["fail_running"] = True
+            continue
         if mode == "block":
             b = draw(st.integers(a + 1, len(items)))
             items.insert(b, ["release"])
@@ -74,6 +82,9 @@ def _cases(draw):
     for i in range(draw(st.integers(1, 2))):
         build = specgen.build_config(draw, final=True, resources=resources)
         build["njob"] = draw(st.integers(1, 4))
+        if spec.get("fail_running"):
+            build["keep_going"] = True
+            build["njob"] = draw(st.integers(3, 4))
         build["choices"] = draw(st.lists(st.integers(0, 255), max_size=60))
         stage_spec = spec
         if i == 1:
@@ -81,6 +92,48 @@ def _cases(draw):
                                                               "change_source"]))
         stages.append({"edit": ["stage"], "spec": stage_spec, "build": build})
     return {"stages": stages}
+
+
+def _mk_step(script, workdir, inp, out, res):
+    return {"script": script, "args": [], "workdir": workdir, "inp": list(inp), "out": list(out),
+            "vol": [], "env": [], "need": "default", "resources": dict(res), "amend_inp": [],
+            "amend_out": [], "read_first": False, "fail": None, "partial": False, "variant": 0}
+
+
+@st.composite
+def _detached_holder_cases(draw):
+    """A sub-plan fails (or is deferred and rerun) while a step it created is running and holds a
+    named resource; steps of the root plan wait for the same resource. The detached step keeps
+    running, so its units stay taken."""
+    units = draw(st.integers(1, 2))
+    nwait = draw(st.integers(1, 3))
+    sources = {"src/s0.txt": "s0\n", "src/s1.txt": "s1\n"}
+    steps = {"holder": _mk_step("sub/holder.py", "sub", ["src/s0.txt", "src/s1.txt"] * 2,
+                                ["out/holder.out"], {"gpu": units})}
+    sub_items = [["step", "holder"]] + [["pause"]] * draw(st.integers(1, 4))
+    how = draw(st.sampled_from(["fail", "fail", "defer"]))
+    if how == "fail":
+        sub_items.append(["fail_plan"])
+    else:
+        steps["late"] = _mk_step("late.py", ".", ["src/s0.txt"], ["gen/late.out"], {})
+        sub_items.append(["chaos", ["amend", {"inp": ["gen/late.out"]}]])
+    root_items = [["plan", "sub/plan.py"]]
+    for k in range(nwait):
+        steps[f"wait{k}"] = _mk_step(f"wait{k}.py", ".", ["src/s1.txt"], [f"out/wait{k}.out"],
+                                     {"gpu": draw(st.integers(1, units))})
+        root_items.append(["step", f"wait{k}"])
+    if how == "defer":
+        root_items.append(["step", "late"])
+    pos = draw(st.integers(0, len(root_items) - 1))
+    root_items.insert(pos, root_items.pop(0))
+    spec = {"sources": sources, "steps": steps, "env": {},
+            "plans": {"plan.py": {"workdir": ".", "items": root_items},
+                      "sub/plan.py": {"workdir": "sub", "items": sub_items}},
+            "static_style": {}}
+    build = {"njob": draw(st.integers(3, 4)), "keep_going": True, "do_clean": True,
+             "resources": f"gpu:{units}",
+             "choices": draw(st.lists(st.integers(0, 255), max_size=40))}
+    return {"stages": [{"edit": ["detached-holder", how], "spec": spec, "build": build}]}
 
 
 def judge(i, r, rec, state):
@@ -180,7 +233,9 @@ async def check_case(case, rec, ctx):
 
 def subchecks(tier):
     big = tier == "thorough"
-    return [SubCheck("limits", check_case, strategy=_cases, examples=160_000 if big else 4_000)]
+    return [SubCheck("limits", check_case, strategy=_cases, examples=160_000 if big else 4_000),
+            SubCheck("detached_holder", check_case, strategy=_detached_holder_cases,
+                     examples=40_000 if big else 1_200)]
 
 
 MANIFEST = {
